@@ -583,10 +583,10 @@ def run(c):
     c.prove()
     stream_malformed(c)
     probe_f6(c)
-    stream_main(c, c.n(120, 1000))
+    stream_main(c, c.n(120, 2500))
     with warnings.catch_warnings():
         warnings.simplefilter("ignore")
-        stream_solve(c, c.n(8, 50))
+        stream_solve(c, c.n(8, 80))
     c.exhaustive = False
     c.notes.append(
         "user rows are isolated as the multiset difference between the full transcription and the transcription of "
